@@ -175,8 +175,11 @@ func genBitmap(r *vh.Rng, th bool) []Case {
 			{K: "aspec", H: 2, A: u1, PL: sg.pl},
 		}
 		ml := maxLen
-		if gi >= 3 && !th {
+		if gi >= 2 && !th {
 			ml = 2
+		}
+		if gi >= 3 && th {
+			ml = 3
 		}
 		for n := 1; n <= ml; n++ {
 			seqs(alpha, n, func(ops []Op) {
@@ -185,9 +188,9 @@ func genBitmap(r *vh.Rng, th bool) []Case {
 			})
 		}
 		// sampled longer sequences over the same alphabet
-		ns := 150
+		ns := 80
 		if th {
-			ns = 4000
+			ns = 2500
 		}
 		for i := 0; i < ns; i++ {
 			n := ml + 1 + r.Intn(3)
